@@ -459,7 +459,7 @@ func (in *Interp) execStmt(fr *frame, s ast.Stmt, st *State) *Tree {
 				vals = append(vals, st.env[r])
 			}
 		}
-		return in.hoistReturn(st, vals)
+		return leafTree(st, flowReturn, vals...)
 	case *ast.IfStmt:
 		if s.Init != nil {
 			t := in.execStmt(fr, s.Init, st)
@@ -778,8 +778,8 @@ func (in *Interp) assign(fr *frame, lhs ast.Expr, v *Term, st *State, define boo
 			in.fail(l.Pos(), "assignment through a pointer to a local composite is not modelled")
 		}
 		loc := &Term{Op: "fld", S: id, Args: []*Term{base}, Hint: fv.Name(), Obj: fv}
-		st.heap[loc.String()] = v
-		st.heapLoc[loc.String()] = loc
+		st.heap[loc.Key()] = v
+		st.heapLoc[loc.Key()] = loc
 		return
 	case *ast.IndexExpr:
 		xt := fr.info.TypeOf(l.X)
@@ -1036,7 +1036,7 @@ func (in *Interp) fieldOf(base *Term, sel *types.Selection, st *State) *Term {
 		loc.Hint = fv.Name()
 		loc.Obj = fv
 	}
-	if v, ok := st.heap[loc.String()]; ok {
+	if v, ok := st.heap[loc.Key()]; ok {
 		return v
 	}
 	return loc
